@@ -119,6 +119,20 @@ CLAIMED['C06'] = dict(
          'instead of a list are outside the generator. One genuine defect (five raise paths + rank-3 acceptance) found and fixed.',
     technique='Coq proof (boolean case analysis: soundness + completeness) + in-Coq correspondence evaluation')
 
+CLAIMED['C05'] = dict(
+    text='Coq theorems over ANY list of groups in the target location (names as strings, stored attributes, progress records): a group is '
+         'returned without computing only if it is named <this dataset>-<this tool>_<digits>, its stored parameters match and its record is '
+         'complete (well-formed status all 1, or legacy last_pixel >= N); groups of another dataset/tool are never returned or resumed '
+         '(unique decomposition of names, C13); otherwise the last matching incomplete group is resumed, otherwise a fresh one is made; '
+         'malformed/missing records are ignored; override always starts fresh; the constructor writes only into legacy groups (frame '
+         'theorem for all others, refutation witness for legacy). The decision model composes the C13 and C16 models and is compared in coqc '
+         'with the real Process (duplicate/partial lists, returned group, call log) over generated histories; per-group digests judge frames.',
+    design='5/C05',
+    note='Trusted: Coq kernel, abstraction of groups (harness), digests as notion of unchanged. Open findings: legacy groups are upgraded by the '
+         'constructor even with override=True (required by the unedited test-suite); last_pixel outside [0,N] not treated as malformed; a separate '
+         'target file cannot tell apart sources with the same leaf name (provenance attributes not compared). Two defects fixed.',
+    technique='Coq proof (list reasoning over the classification/decision, reuse of C13/C16 theorems) + in-Coq correspondence evaluation')
+
 NOT_YET = {}
 
 TITLES = {}
